@@ -147,8 +147,21 @@ func (w *World) Config() config.Config {
 }
 
 func (w *World) ConfigFor(dbDir string, roots []string) config.Config {
+	spelled := make([]string, len(roots))
+	for i, r := range roots {
+		switch w.Spec.RootStyle {
+		case 1:
+			spelled[i] = r + "/"
+		case 2:
+			spelled[i] = filepath.Dir(r) + "/./" + filepath.Base(r)
+		case 3:
+			spelled[i] = filepath.Dir(r) + "//" + filepath.Base(r)
+		default:
+			spelled[i] = r
+		}
+	}
 	return config.Config{
-		Storage: config.Storage{DbPath: dbDir, MaxDirCount: w.Spec.MaxDirCount, RootDirs: append([]string(nil), roots...), GCPeriod: time.Duration(w.Spec.GCPeriodNs)},
+		Storage: config.Storage{DbPath: dbDir, MaxDirCount: w.Spec.MaxDirCount, RootDirs: spelled, GCPeriod: time.Duration(w.Spec.GCPeriodNs)},
 		WPool:   config.WPool{NumWorkers: w.Spec.NumWorkers, SendDuration: time.Duration(w.Spec.SendDurNs)},
 	}
 }
